@@ -36,6 +36,9 @@ def pdf_value(shape, e1, e2, Q, par):
         return max(0.0, (e1 + 0.511) * (e2 + 0.511) * math.sqrt(e1 * (e1 + 1.022)) * math.sqrt(e2 * (e2 + 1.022)) * max(0.0, Q - s) ** 5) + 1e-12
     if shape == "zerotail":
         return 0.0 if s > par[0] * Q else 1.0 + e1
+    if shape == "holes":    # interior bands of zero density: flat runs inside the cumulative rows
+        lo, hi = par
+        return 0.0 if lo * Q <= e2 <= hi * Q else 1.0 + 0.5 * e1
     raise ValueError(shape)
 
 
@@ -45,7 +48,7 @@ def synth(outbase, nuclide, process, rng, n=None, shape=None, layout="test", qui
     layout 'exceeds': E_min + E_max slightly above Q (as the documented real tables); c.d.f. file only."""
     enc = load_encoder()
     n = n or rng.randint(2, 96)
-    shape = shape or rng.choice(["flat", "peaked", "steep", "phase", "zerotail"])
+    shape = shape or rng.choice(["flat", "peaked", "steep", "phase", "zerotail", "holes"])
     Q = round(0.5 + 3.5 * rng.uniform(), 4)
     if layout == "test":
         emin = round(Q * (0.0005 + 0.08 * rng.uniform()), 6)
@@ -54,7 +57,8 @@ def synth(outbase, nuclide, process, rng, n=None, shape=None, layout="test", qui
         emin = round(Q * (0.002 + 0.004 * rng.uniform()), 6)
         emax = round(Q * 0.9995, 6)
     par = {"flat": (), "peaked": (0.1 + 0.5 * rng.uniform(), 0.1 + 0.4 * rng.uniform(), 0.03 + 0.2 * rng.uniform()),
-           "steep": (rng.choice([5, 20, 60, 150, 400]),), "phase": (), "zerotail": (0.35 + 0.5 * rng.uniform(),)}[shape]
+           "steep": (rng.choice([5, 20, 60, 150, 400]),), "phase": (), "zerotail": (0.35 + 0.5 * rng.uniform(),),
+           "holes": (lambda a: (a, a + 0.05 + 0.2 * rng.uniform()))(0.1 + 0.3 * rng.uniform())}[shape]
     step = (emax - emin) / (n - 1)
     d = os.path.join(outbase, "data/dbd_gA/v1.0", nuclide, process)
     os.makedirs(d, exist_ok=True)
